@@ -4,6 +4,8 @@
 // after arbitrary other calls, with another pre-fill of outputs/scratch and another byte alignment of every
 // buffer — must return identical bits. *_simple functions are additionally compared with their table-based
 // twin (explicit / freshly built table) on identical arguments.
+#include <pthread.h>
+
 #include "ops.h"
 
 #define NENV 16
@@ -104,10 +106,85 @@ static void program_case(unsigned prog, int len, int big_ok) {
   case_end(nrep > 0);
 }
 
+// "whatever was called in between" includes what other threads are calling at the same moment: the same list of calls
+// (equal arguments) is first run alone, then repeated by several threads at once on shared objects; every repetition must
+// return the bits of the first run
+typedef struct {
+  const env_t* e;
+  const int* ops;
+  int nops, rounds;
+  uint64_t seed0;
+  const uint64_t* want;
+  uint64_t wrong;
+  int first_bad;
+  pthread_barrier_t* bar;
+} crep_t;
+static void* crep_worker(void* arg) {
+  crep_t* c = arg;
+  pthread_barrier_wait(c->bar);
+  for (int rd = 0; rd < c->rounds; rd++)
+    for (int i = 0; i < c->nops; i++) {
+      opres_t r;
+      op_exec(&OPS[c->ops[i]], c->e, c->seed0 + (uint64_t)i, (rd + i) & 3, (unsigned)(rd * 3 + i), 0, &r);
+      if (!r.skipped && r.out_hash != c->want[i]) {
+        if (!c->wrong) c->first_bad = c->ops[i];
+        c->wrong++;
+      }
+    }
+  return 0;
+}
+static void concurrent_repeat_case(int envi, int native, int T, unsigned rep) {
+  char key[96];
+  snprintf(key, sizeof key, "equal-arguments|repeated by %d threads at once%s", T, native ? "" : ",generic");
+  if (!case_begin(key, "N=%" PRIu64 " rep=%u", ENVN[envi], rep)) return;
+  g_case_aligned = 0;
+  env_t* e = env_get(envi, native);
+  int ops[256], nops = 0;
+  for (int i = 0; i < N_CAT_OPS; i++) {
+    const opdef_t* o = &OPS[i];
+    if (o->flags & OPF_SIMPLE) continue;  // thread-local parameter caches: their contract needs a warm-up (C12)
+    if (!native && (o->flags & (OPF_NTT120 | OPF_AVX | OPF_KERNEL))) continue;
+    if (ENVN[envi] >= 8192 && !(strstr(o->name, "fft") || strstr(o->name, "dft") || strstr(o->name, "vmp") || strstr(o->name, "svp") || strstr(o->name, "small") || strstr(o->name, "ntt"))) continue;
+    ops[nops++] = i;
+  }
+  const uint64_t seed0 = mix64(G.seed * 991 + rep * 17 + (uint64_t)envi);
+  uint64_t* want = calloc((size_t)nops, 8);
+  for (int i = 0; i < nops; i++) {
+    opres_t r;
+    op_exec(&OPS[ops[i]], e, seed0 + (uint64_t)i, 1, 5, 0, &r);
+    want[i] = r.skipped ? 0 : r.out_hash;
+  }
+  crep_t c[16];
+  pthread_t tid[16];
+  pthread_barrier_t bar;
+  pthread_barrier_init(&bar, 0, (unsigned)T);
+  for (int t = 0; t < T; t++) {
+    c[t] = (crep_t){e, ops, nops, ENVN[envi] <= 1024 ? 6 : 2, seed0, want, 0, -1, &bar};
+    pthread_create(&tid[t], 0, crep_worker, &c[t]);
+  }
+  uint64_t calls = 0;
+  for (int t = 0; t < T; t++) {
+    pthread_join(tid[t], 0);
+    calls += (uint64_t)c[t].rounds * (uint64_t)nops;
+    if (c[t].wrong) viol("history", "%s (first; %" PRIu64 " calls of thread %d): equal arguments returned other bits than the call run alone while %d threads repeat the same calls (N=%" PRIu64 ", %s)", OPS[c[t].first_bad].name, c[t].wrong, t, T, ENVN[envi], native ? "native" : "generic");
+  }
+  pthread_barrier_destroy(&bar);
+  free(want);
+  cnt("concurrent_repetitions", calls);
+  sample("%d entry points repeated by %d threads, %" PRIu64 " calls bit-identical to the first run", nops, T, calls);
+  case_end(nops > 0);
+}
+
 void run_C15(void) {
   const int th = G.thorough;
   const unsigned nprog = th ? 40000 : 960;
   for (unsigned p = 0; p < nprog; p++) program_case(p, 300, (p % 8) == 0);
+  for (int envi = 0; envi < NENV; envi++)
+    for (int native = 1; native >= 0; native--)
+      for (unsigned rep = 0; rep < (th ? 6u : 1u); rep++) {
+        if (!th && ENVN[envi] > 16384) continue;
+        concurrent_repeat_case(envi, native, 4, rep);
+      }
   for (int i = 0; i < NENV; i++)
     for (int n = 0; n < 2; n++)
       if (ENVS[i][n]) env_destroy(ENVS[i][n]);
